@@ -138,6 +138,7 @@ type AuthOpts struct {
 	RootDomains    []string // proxy root domains
 	Lifetime       time.Duration
 	Slug           string
+	NoProxyClient  bool   // CLIENT_PROXY_ID / CLIENT_PROXY_SECRET are left unset (a misconfigured deployment)
 	ProviderType   string // okta (default) | cognito
 }
 
@@ -168,7 +169,34 @@ func repeat(b byte, n int) []byte {
 	return out
 }
 
-// NewAuthEnv builds sso-auth exactly like cmd/sso-auth: Configuration -> NewAuthenticatorMux ->
+// loadAuthConfigFromEnv sets the given variables, calls the real auth.LoadConfig and restores the
+// process environment (under the same lock as the proxy's loader: the two read overlapping names).
+func loadAuthConfigFromEnv(env map[string]string) (auth.Configuration, error) {
+	envMu.Lock()
+	defer envMu.Unlock()
+	type saved struct {
+		v  string
+		ok bool
+	}
+	old := map[string]saved{}
+	for k, v := range env {
+		pv, ok := os.LookupEnv(k)
+		old[k] = saved{pv, ok}
+		os.Setenv(k, v)
+	}
+	defer func() {
+		for k, sv := range old {
+			if sv.ok {
+				os.Setenv(k, sv.v)
+			} else {
+				os.Unsetenv(k)
+			}
+		}
+	}()
+	return auth.LoadConfig()
+}
+
+// NewAuthEnv builds sso-auth exactly like cmd/sso-auth: environment -> LoadConfig -> Validate -> NewAuthenticatorMux ->
 // TimeoutHandler -> logging handler, with an Okta provider whose org URL is the fake IdP.
 func NewAuthEnv(o AuthOpts) (*AuthEnv, error) {
 	authproviders.VerifRelaxClientTimeouts()
@@ -177,32 +205,48 @@ func NewAuthEnv(o AuthOpts) (*AuthEnv, error) {
 		o.Slug = "idp"
 	}
 	e.Slug = o.Slug
-	c := auth.DefaultAuthConfig()
-	c.ServerConfig.Host = AuthHost
-	c.ServerConfig.Scheme = "https"
-	c.ClientConfigs["proxy"] = auth.ClientConfig{ID: ClientID, Secret: ClientSecret}
-	c.AuthorizeConfig.EmailConfig.Domains = o.EmailDomains
-	c.AuthorizeConfig.EmailConfig.Addresses = o.EmailAddresses
-	c.AuthorizeConfig.ProxyConfig.Domains = o.RootDomains
-	c.SessionConfig.Key = base64.StdEncoding.EncodeToString(AuthCodeSecret)
-	c.SessionConfig.CookieConfig.Secret = base64.StdEncoding.EncodeToString(AuthCookieSecret)
-	if o.Lifetime != 0 {
-		c.SessionConfig.SessionLifetimeTTL = o.Lifetime
+	// configuration comes from environment variables through auth.LoadConfig, as in cmd/sso-auth
+	up := strings.ToUpper(o.Slug)
+	env := map[string]string{
+		"SERVER_HOST":                       AuthHost,
+		"SERVER_SCHEME":                     "https",
+		"SESSION_KEY":                       base64.StdEncoding.EncodeToString(AuthCodeSecret),
+		"SESSION_COOKIE_SECRET":             base64.StdEncoding.EncodeToString(AuthCookieSecret),
+		"PROVIDER_" + up + "_TYPE":          "okta",
+		"PROVIDER_" + up + "_SLUG":          o.Slug,
+		"PROVIDER_" + up + "_CLIENT_ID":     "idp-client-id",
+		"PROVIDER_" + up + "_CLIENT_SECRET": "idp-client-secret",
+		"PROVIDER_" + up + "_OKTA_URL":      e.IdP.Addr(),
 	}
-	pc := auth.ProviderConfig{
-		ProviderType:       "okta",
-		ProviderSlug:       o.Slug,
-		ClientConfig:       auth.ClientConfig{ID: "idp-client-id", Secret: "idp-client-secret"},
-		OktaProviderConfig: auth.OktaProviderConfig{OrgURL: e.IdP.Addr()},
-		GroupCacheConfig:   c.GroupCacheConfig,
+	if !o.NoProxyClient {
+		env["CLIENT_PROXY_ID"], env["CLIENT_PROXY_SECRET"] = ClientID, ClientSecret
+	}
+	if len(o.EmailDomains) > 0 {
+		env["AUTHORIZE_EMAIL_DOMAINS"] = strings.Join(o.EmailDomains, ",")
+	}
+	if len(o.EmailAddresses) > 0 {
+		env["AUTHORIZE_EMAIL_ADDRESSES"] = strings.Join(o.EmailAddresses, ",")
+	}
+	if len(o.RootDomains) > 0 {
+		env["AUTHORIZE_PROXY_DOMAINS"] = strings.Join(o.RootDomains, ",")
+	}
+	if o.Lifetime != 0 {
+		env["SESSION_LIFETIME"] = o.Lifetime.String()
 	}
 	if o.ProviderType == "cognito" {
-		pc.ProviderType = "cognito"
-		pc.OktaProviderConfig = auth.OktaProviderConfig{}
-		pc.AmazonCognitoProviderConfig = auth.AmazonCognitoProviderConfig{OrgURL: e.IdP.Addr(), UserPoolID: "pool", Region: "us-east-1",
-			Credentials: auth.CognitoCredentials{ID: "aws-id", Secret: "aws-secret"}}
+		delete(env, "PROVIDER_"+up+"_OKTA_URL")
+		env["PROVIDER_"+up+"_TYPE"] = "cognito"
+		env["PROVIDER_"+up+"_COGNITO_URL"] = e.IdP.Addr()
+		env["PROVIDER_"+up+"_COGNITO_ID"] = "pool"
+		env["PROVIDER_"+up+"_COGNITO_REGION"] = "us-east-1"
+		env["PROVIDER_"+up+"_COGNITO_CREDENTIALS_ID"] = "aws-id"
+		env["PROVIDER_"+up+"_COGNITO_CREDENTIALS_SECRET"] = "aws-secret"
 	}
-	c.ProviderConfigs[o.Slug] = pc
+	c, err := loadAuthConfigFromEnv(env)
+	if err != nil {
+		e.Close()
+		return nil, fmt.Errorf("auth config load: %w", err)
+	}
 	if err := c.Validate(); err != nil {
 		e.Close()
 		return nil, fmt.Errorf("auth config: %w", err)
